@@ -166,6 +166,14 @@ package cache
 //@   pure
 //@   ensures n >= 0
 
+// What is stored for key right now (asked with the key's shard lock held, so the answer
+// stays true until that lock is released).
+//@ fnfield cacheFunctions.getMetadata(key CacheKey) (meta ptr, ok bool)
+//@   ghost blocks-at 2
+//@   ghost holds shard
+//@   pure
+//@   ensures ok ==> meta != nil && allocated(meta) && meta.Expires == jexp(key)
+
 //@ fnfield cacheFunctions.getLock(key CacheKey) (lock ptr)
 //@   pure
 //@   ghost result shardlock
@@ -395,7 +403,8 @@ package cache
 //@   ghost callsite-requires [C13] evict arg_maxCacheBytes == cfgval(j.cfg.Cache.MaxCacheSize)
 
 // Each cleanup cycle removes exactly the expired entries: a key is handed to
-// removeEntry only if the entry stored for it NOW (under its shard lock) is expired.
+// removeEntry only if the entry stored for it NOW (under its shard lock) is expired - the
+// cycle looks the entry up again once it holds the lock.
 //@ props C13 C14 C15 C16 C12
 //@ func cacheJanitor.cleanExpiredEntries
 //@   nopanic
@@ -471,6 +480,22 @@ package cache
 //@   ensures [C12] specFileInv(c) && c.byteSize.val.v <= old(c.byteSize.val.v)
 //@   ensures [C12] old(mbytes == c.byteSize.val.v) ==> mbytes == c.byteSize.val.v
 //@   ensures [C12] old(mentries == len(c.entriesMetadata)) ==> mentries == len(c.entriesMetadata)
+
+//@ props C13 C14 C15 C16
+//@ func NewMemoryCache$8
+//@   ghost blocks-at 2
+//@   ghost jexp-is c.entries[key].meta.Expires
+//@   implements cacheFunctions.getMetadata
+//@   nopanic
+//@   requires specMemInv(c)
+
+//@ props C13 C14 C15 C16
+//@ func NewFileCache$7
+//@   ghost blocks-at 2
+//@   ghost jexp-is c.entriesMetadata[key].Expires
+//@   implements cacheFunctions.getMetadata
+//@   nopanic
+//@   requires specFileInv(c)
 
 //@ props C12 C16
 //@ func NewMemoryCache$5
